@@ -2,6 +2,7 @@ C = "clematis/engine/cache.py"
 B = "clematis/engine/util/lru_bytes.py"
 D = "clematis/engine/util/lru_det.py"
 R = "clematis/engine/util/ring.py"
+LD = "clematis/engine/util/lru_det.py"
 CASES = [
     ("get-outside-lock", "mutant", C,
      "    def get(self, key: K) -> Optional[V]:\n        with self._lock:\n            return self._inner.get(key)\n\n    def put(self, key: K, value: V) -> None:",
@@ -29,7 +30,10 @@ CASES = [
     ("merge-unsorted-workers", "mutant", C, "    for _, wc in sorted(worker_caches, key=lambda t: worker_order_key(t[0])):", "    for _, wc in worker_caches:", "C15.MERGE"),
     ("merge-unsorted-keys", "mutant", C, "        kvs.sort(key=lambda kv: key_order_key(kv[0]))\n", "", "C15.MERGE"),
     ("merge-last-wins", "mutant", C, "                # first_wins → skip later value\n                continue\n", "                pass\n", "C15.MERGE"),
+    ("detlru-touch-rotates-right", "mutant", LD, "        try:\n            self._q.remove(key)\n        except ValueError:\n            # If not present in deque (shouldn't happen), append anyway.\n            pass\n        self._q.append(key)\n\n    def _evict_if_needed(self) -> Optional[Tuple[K, V]]:\n", "        q = self._q\n        if q and q[0] == key:\n            q.rotate(1)\n            return\n        try:\n            self._q.remove(key)\n        except ValueError:\n            # If not present in deque (shouldn't happen), append anyway.\n            pass\n        self._q.append(key)\n\n    def _evict_if_needed(self) -> Optional[Tuple[K, V]]:\n", "C15.EVICT"),
+    ("detlru-touch-appendleft", "mutant", LD, "        try:\n            self._q.remove(key)\n        except ValueError:\n            # If not present in deque (shouldn't happen), append anyway.\n            pass\n        self._q.append(key)\n\n    def _evict_if_needed(self) -> Optional[Tuple[K, V]]:\n", "        try:\n            self._q.remove(key)\n        except ValueError:\n            # If not present in deque (shouldn't happen), append anyway.\n            pass\n        self._q.appendleft(key)\n\n    def _evict_if_needed(self) -> Optional[Tuple[K, V]]:\n", "C15.EVICT"),
     # twins
+    ("detlru-touch-rotate-left-fastpath", "twin", LD, "        try:\n            self._q.remove(key)\n        except ValueError:\n            # If not present in deque (shouldn't happen), append anyway.\n            pass\n        self._q.append(key)\n\n    def _evict_if_needed(self) -> Optional[Tuple[K, V]]:\n", "        q = self._q\n        if q and q[0] == key:\n            q.rotate(-1)\n            return\n        try:\n            self._q.remove(key)\n        except ValueError:\n            # If not present in deque (shouldn't happen), append anyway.\n            pass\n        self._q.append(key)\n\n    def _evict_if_needed(self) -> Optional[Tuple[K, V]]:\n", None),
     ("lock-local-var", "twin", C,
      "    def get(self, key: K) -> Optional[V]:\n        with self._lock:\n            return self._inner.get(key)\n\n    def put(self, key: K, value: V) -> None:",
      "    def get(self, key: K) -> Optional[V]:\n        with self._lock:\n            v = self._inner.get(key)\n            return v\n\n    def put(self, key: K, value: V) -> None:", None),
